@@ -41,14 +41,6 @@ FINISH = dict(
                  "C17_write_atomic quantifies over accept counts and EWOULDBLOCK; hard kernel errors drop queued frames (noted)"])
 
 DRIVER = ["zutil_z.ml.in", "zutil_big.ml.in", "stream_driver.ml"]
-KNOWN_QUEUE = "send-queue offset arithmetic after a partial write inside a multi-buffer message (nice_socket_queue_send_with_callback)"
-KNOWN_TURN = "turn-over-tcp frame header announces more than recv_buf holds (expecting_len + padlen > 65536)"
-KNOWN_SOCKS = "socks5 handshake read returned fewer bytes than requested (the code tests the buffer size, not the received length)"
-KNOWN_PSSL = "pseudo-ssl server hello did not arrive in a single read"
-KNOWN_HTTP_TRAIL = "http: bytes following the proxy reply in the same read are handed over without setting message->length"
-KNOWN_HTTP_DIGIT = "http: Content-Length digit loop read the ring slot past recv_buf_fill (a read ended right after a digit)"
-KNOWN_HTTP_GROW = "http: ring buffer grown while its content was wrapped"
-
 hx = lambda b: bytes(b).hex() if len(b) else "-"
 
 
@@ -122,14 +114,6 @@ class Counter:
 # ------------------------------------------------------------------------------------------------------
 # (5) TCP send queue
 # ------------------------------------------------------------------------------------------------------
-def offbug(bufs, off):
-    for i, b in enumerate(bufs):
-        if len(b) <= off:
-            off -= len(b); continue
-        return len(b) - off < off and sum(len(x) for x in bufs[i + 1:]) > 0
-    return False
-
-
 def mkbufs(rng, sizes, ctr):
     out = []
     for s in sizes:
@@ -176,8 +160,8 @@ def gen_queue(rng, C, tier):
         ops += ["z", "c"]
         C.add("Q %d %s %s" % (rng.choice([0xaa, 0, 0xff]), ",".join(script) or "-", " ".join(ops)),
               "queue-hard-errors" if any(s in ("f", "x") for s in script) else "queue-random")
-    # the confirmed defect, exact trigger
-    C.add("Q 170 a9 r:0001,02030405060708090a0b,0c0d0e0f101112131415 c z c", "queue-offset-trigger")
+    # regression input of fix 509c336 (partial write ending deep inside a middle buffer)
+    C.add("Q 170 a9 r:0001,02030405060708090a0b,0c0d0e0f101112131415 c z c", "queue-offset-regression")
 
 
 def oracle_queue(t, o):
@@ -208,7 +192,7 @@ def oracle_queue(t, o):
             mine.append(toks[k]); k += 1
         per.append(mine)
     hard = any(x in ("Kf", "Kx") for x in toks)
-    frames, kernel, trigger = b"", b"", False
+    frames, kernel = b"", b""
     for op, mine in zip(ops, per):
         if op[0] in "sr":
             bufs = [unhex(x) for x in op[2:].split(",")]
@@ -219,20 +203,17 @@ def oracle_queue(t, o):
             direct = [x for x in mine[:-1] if x not in ("Kw", "Kf", "Kx")]
             if ret == 1:
                 frames += flat
-                if direct and len(unhex(direct[0][1:])) < len(flat) and offbug(bufs, len(unhex(direct[0][1:]))):
-                    trigger = True
             elif direct and len(unhex(direct[0][1:])) > 0:
                 return "a refused frame (ret %d) left %d bytes in the kernel" % (ret, len(unhex(direct[0][1:])))
         for x in mine:
             if x[0] == "K" and x not in ("Kw", "Kf", "Kx"):
                 kernel += unhex(x[1:])
                 if not hard and frames[:len(kernel)] != kernel:
-                    return KNOWN_QUEUE if trigger else \
-                        "kernel byte stream is not a prefix of the concatenation of the accepted frames (at byte %d)" % next(
+                    return "kernel byte stream is not a prefix of the concatenation of the accepted frames (at byte %d)" % next(
                             i for i in range(len(kernel)) if i >= len(frames) or kernel[i] != frames[i])
     if not hard and ops and ops[-2:] == ["z", "c"]:
         if kernel != frames:
-            return KNOWN_QUEUE if trigger else "after draining the queue the kernel got %d bytes, accepted frames total %d" % (len(kernel), len(frames))
+            return "after draining the queue the kernel got %d bytes, accepted frames total %d" % (len(kernel), len(frames))
         if toks[-1] != "C1":
             return "queue not empty after drain"
     return None
@@ -259,11 +240,10 @@ def turn_frame_in(rng, compat, n, payload=None):
 
 
 def turn_ref(compat, s):
-    """reference reassembly (written from the framing rules, not from the model): messages, status, and whether
-    some frame header announces more than the 65536-byte recv_buf of the unchanged code can hold"""
-    msgs, i, oversize = [], 0, False
+    """reference reassembly (written from the framing rules, not from the model): messages, status"""
+    msgs, i = [], 0
     if compat == MSN:
-        return msgs, ("err" if s else "ok"), False
+        return msgs, ("err" if s else "ok")
     while i < len(s):
         hl = 2 if compat == GOOGLE else 4
         if len(s) - i < hl:
@@ -277,16 +257,14 @@ def turn_ref(compat, s):
             tot, start = int.from_bytes(s[i:i + 2], "big"), i + 2
         else:
             if s[i] not in (2, 3):
-                return msgs, "err", oversize
+                return msgs, "err"
             tot, start = int.from_bytes(s[i + 2:i + 4], "big") + 2, i + 2
-        if tot > 65536:
-            oversize = True     # does not fit the 65536-byte recv_buf of the unchanged code
         if len(s) - start < tot:
             break
         if tot > 0:
             msgs.append(s[start:start + tot])
         i = start + tot
-    return msgs, "ok", oversize
+    return msgs, "ok"
 
 
 def gen_turn(rng, C, tier):
@@ -395,9 +373,9 @@ def oracle_turn(t, o):
         return None
     stream = b"".join(unhex(x[2:]) for x in ops[ops.index("|") + 1:] if x[:2] == "f:")
     a, b = project(hs[0], False), project(hs[1], False)
-    msgs, status, oversize = turn_ref(compat, stream)
+    msgs, status = turn_ref(compat, stream)
     if "fault" in (a[2], b[2]) or "live" in (a[2], b[2]):
-        return KNOWN_TURN if oversize and "live" not in (a[2], b[2]) else "layer faulted (%s / %s) without an oversize frame header" % (a[2], b[2])
+        return "layer wrote outside recv_buf / failed an assertion / spun (%s / %s)" % (a[2], b[2])
     if a != b:
         return "chunked delivery and one-chunk delivery differ: %r vs %r" % (summ(a), summ(b))
     if [m for m, _ in b[0]] != msgs or b[2] != status:
@@ -737,43 +715,8 @@ def oracle_proxy(t, o):
     toks = hs_[0] + hs_[1]
     if "FAULT" in toks or "LIVE" in toks:
         return "layer faulted or spun (%s / %s)" % (a[2], b[2])
-    # known triggers, recognised on the implementation's own read log
-    known = None
-    reads = [(int(x[1:].split("/")[0]), int(x[1:].split("/")[1])) for x in toks if x[0] == "q"]
-    if layer == "S" and any(req in (2, 4) and 0 < got < req or req in (6, 18) and got < req for req, got in reads):
-        known = KNOWN_SOCKS
-    if layer == "P" and any(req in (79, 83) and 0 < got < req for req, got in reads):
-        known = KNOWN_PSSL
-    if layer == "H":
-        found = set()
-        if any(x.startswith("R1:0:-:z") for x in toks):
-            found.add(KNOWN_HTTP_TRAIL)
-        for half in hs_:
-            got_total = 0
-            for x in half:
-                if x[0] == "q":
-                    req, got = (int(v) for v in x[1:].split("/"))
-                    if req == 70000:
-                        break
-                    if got_total >= 1024 and req >= 1024:
-                        found.add(KNOWN_HTTP_GROW)      # the buffer was full and had to grow (after the status line: wrapped)
-                    got_total += got
-                    pre = stream[:got_total]
-                    line = pre[pre.rfind(b"\n") + 1:].lower()
-                    val = line[15:].lstrip(b" ")
-                    if line.startswith(b"content-length:") and val and val.isdigit():
-                        found.add(KNOWN_HTTP_DIGIT)
-        for kf in (KNOWN_HTTP_GROW, KNOWN_HTTP_DIGIT, KNOWN_HTTP_TRAIL):
-            if kf in found:
-                known = kf
-                break
     if a != b:
-        return known or "chunked delivery and one-chunk delivery differ: %r vs %r" % (summ(a), summ(b))
-    if known:
-        # both deliveries hit the defect the same way; it is still a finding when it breaks a well-formed exchange
-        if expect == "ok" and (b[2] != "ok" or b[0][0] != stream[hs:] or b[0][1]):
-            return known
-        return None
+        return "chunked delivery and one-chunk delivery differ: %r vs %r" % (summ(a), summ(b))
     # the expected outcome of a well-formed exchange (one-chunk delivery)
     if expect == "ok":
         if b[2] != "ok" or b[0][0] != stream[hs:] or b[0][1]:
@@ -804,27 +747,6 @@ def nontrivial(line, out):
     return out is not None and any(x in out for x in (" R1:", " D", " K", " S1"))
 
 
-class CappedReports:
-    """vlib.correspond reports at most max_report oracle failures, known findings included, so a genuine violation
-    behind the (many) known ones would go unreported; with a large max_report every failing case would get a replay
-    file.  Local workaround: let every failure through to the known-findings match, keep the first few genuine ones."""
-
-    def __init__(self, chk, cap=5):
-        self._chk, self._cap, self.dropped = chk, cap, 0
-
-    def __getattr__(self, name):
-        return getattr(self._chk, name)
-
-    def violation(self, replay, summary, no_input=False):
-        if len(self._chk.violations) >= self._cap:
-            known = any(k.get("property") == self._chk.pid and k.get("status") == "known" and vlib._match_known(k, replay)
-                        for k in vlib.load_known())
-            if not known:
-                self.dropped += 1
-                return True
-        return self._chk.violation(replay, summary, no_input)
-
-
 def run(chk):
     chk.prove(["Props/Properties_C17.v"], ["Stream/Extract_Stream.vo"])
     model, o = vlib.ocaml_build("stream_model", "stream_model", DRIVER)
@@ -835,14 +757,11 @@ def run(chk):
         chk.broken_obligation("impl-build", o[-3000:])
     if impl:
         cases = gen_cases(chk.rng, chk.tier)
-        capped = CappedReports(chk)
         if model:
-            vlib.correspond(capped, cases, model, impl, oracle=oracle, what="stream-layers", nontrivial=nontrivial,
-                            max_report=10 ** 9, timeout=1500)
+            vlib.correspond(chk, cases, model, impl, oracle=oracle, what="stream-layers", nontrivial=nontrivial,
+                            max_report=5, timeout=1500)
         else:
-            vlib.correspond(capped, cases, impl, impl, oracle=oracle, what="stream-layers-oracle-only", max_report=10 ** 9, timeout=1500)
-        if capped.dropped:
-            chk.cov["further_violations_not_written"] = capped.dropped
+            vlib.correspond(chk, cases, impl, impl, oracle=oracle, what="stream-layers-oracle-only", max_report=5, timeout=1500)
     return chk.finish(**FINISH)
 
 
